@@ -121,7 +121,8 @@ class C20(Harness):
     def reset_repr_guards(param):
         """the recursion guards of repr / pprint keep a module-lifetime set of "being printed" keys: a defect that leaks entries must not make
         later executions of the same worker depend on earlier ones"""
-        for fn in (param.Parameterized.__repr__, param.parameterized.Parameters.pprint, getattr(param.parameterized.Parameters, '_repr_html_', None)):
+        P = param.parameterized.Parameters
+        for fn in (param.Parameterized.__repr__, P.__dict__.get('_pprint'), getattr(P.__dict__.get('_pprint'), '__func__', None), P.__dict__.get('_repr_html_')):
             for cell in (getattr(fn, '__closure__', None) or ()):
                 try:
                     v = cell.cell_contents
